@@ -241,6 +241,8 @@ class Ctx:
     def none_check(self, ex, p, obj, node):
         if not self.none_mode or ex.side != "real":
             return
+        if isinstance(getattr(node, "value", None), ast.Name) and node.value.id == "self":
+            return                              # the receiver of the method under verification is an object
         if isinstance(obj, (PyC, Tup, ClassRef, Closure)):
             if isinstance(obj, PyC) and obj.v is None:
                 ex.raise_(p, "AttributeError", None, node.lineno)
@@ -293,18 +295,56 @@ class Ctx:
             return ClassRef(v[6:])
         return PyC(v)
 
+    CANON_MODULES = {"numpy": "np", "sympy": "sym", "networkx": "nx", "os": "os", "os.path": "os.path", "copy": "copy", "warnings": "warnings",
+                     "antlr4": "antlr4", "re": "re", "sys": "sys", "networkx.algorithms": "nx.algorithms", "networkx.algorithms.isomorphism": "isomorphism"}
+
+    def import_aliases(self):
+        """names the module under verification binds by import, as the dotted names the library models use: `from os import path as os_path`
+        -> os_path = os.path; `from antlr4 import InputStream` -> InputStream = antlr4.InputStream; `import numpy` -> numpy = np"""
+        mod = self.cur_module
+        cache = self.__dict__.setdefault("_import_aliases", {})
+        if mod not in cache:
+            m = {}
+            try:
+                tree = ast.parse(open(os.path.join(self.repo, mod), newline=None).read())
+            except (OSError, SyntaxError, TypeError):
+                tree = None
+            for n in ast.walk(tree) if tree is not None else []:
+                if isinstance(n, ast.Import):
+                    for a in n.names:
+                        canon = self.CANON_MODULES.get(a.name)
+                        local = a.asname or a.name.split(".")[0]
+                        if canon and local not in MODULE_ALIASES and (a.asname or "." not in a.name):
+                            m[local] = canon
+                elif isinstance(n, ast.ImportFrom) and n.module and not n.level:
+                    canon = self.CANON_MODULES.get(n.module)
+                    if canon:
+                        for a in n.names:
+                            local = a.asname or a.name
+                            if local not in MODULE_ALIASES or (canon + "." + a.name) != local:
+                                m[local] = canon + "." + a.name
+            cache[mod] = m
+        return cache[mod]
+
     def dotted(self, ex, e):
         parts = []
         n = e
         while isinstance(n, ast.Attribute):
             parts.append(n.attr)
             n = n.value
-        if not isinstance(n, ast.Name) or n.id not in MODULE_ALIASES:
+        if not isinstance(n, ast.Name):
             return None
+        root = n.id
+        if root not in MODULE_ALIASES:
+            al = self.import_aliases().get(root) if ex.side != "spec" else None
+            if al is None:
+                return None
+            root = al
         if n.id in ex_env_names(ex):
             return None
-        parts.append(n.id)
+        parts.append(root)
         name = ".".join(reversed(parts))
+        n = ast.Name(id=root.split(".")[0], ctx=ast.Load())
         if name == "np.pi":
             return app("PI_CONST")
         if n.id == "blackbirdParser":
@@ -481,6 +521,8 @@ class Ctx:
                 return [(self.exc_value(e, n, args, kwargs, star, starkw), p)]
             if n in lib.FUNCS:
                 return self.lib_call(ex, e, n, args, kwargs, star, starkw, p)
+            if ex.side != "spec" and self.import_aliases().get(n) in lib.FUNCS:
+                return self.lib_call(ex, e, self.import_aliases()[n], args, kwargs, star, starkw, p)      # `from antlr4 import InputStream`
             if ex.side != "real" and n.isupper() or (ex.side != "real" and re.fullmatch(r"[A-Z][A-Z0-9_]*", n)):
                 self.plain(e, star, starkw, n)
                 return self.spec_primitive(ex, e, n, args, kwargs, p)
@@ -560,7 +602,8 @@ class Ctx:
                     if isinstance(fdef, ast.FunctionDef):
                         ex.notes.append("helper method self.%s() has no contract: inlined at line %s" % (mname, getattr(e, "lineno", "?")))
                         self.plain(e, star, starkw, "." + mname)
-                        res.extend(self.inline(ex, e, fdef, [obj] + list(args), kwargs, p2))
+                        static = any(ast.unparse(d) == "staticmethod" for d in fdef.decorator_list)
+                        res.extend(self.inline(ex, e, fdef, ([] if static else [obj]) + list(args), kwargs, p2))
                     else:
                         # a library method without a specific contract: a pure, possibly failing function of receiver and arguments
                         # (all mutating methods of the builtin containers are handled above); recorded as assumed
@@ -698,10 +741,15 @@ class Ctx:
             raise Unsupported("walk with unexpected argument", e)
         if extra:
             mname = mname + lib.kwsfx(kwargs) + ("_starkw" if starkw is not None else "")
-        if l is None or l.get(p) is None:
+        if (l is None or l.get(p) is None) and mname == "walk":
+            # ParseTreeWalker().walk(...): the walker itself carries no state the model uses; evaluate the receiver, then walk as below
+            outs = ex.ev(f.value, p)
+            if len(outs) != 1:
+                raise Unsupported("walk() on a receiver with several outcomes", e)
+            p = outs[0][1]
+            l = None
+        elif l is None or l.get(p) is None:
             # receiver is a temporary (e.g. the result of a helper call): its updated state is not observable afterwards
-            if mname == "walk":
-                raise Unsupported("walk() on a temporary walker", e)
             res = []
             for obj, p2 in ex.ev(f.value, p):
                 cur = asV(obj)
@@ -711,7 +759,7 @@ class Ctx:
                     res.append((app("ret_" + mname, cur, *av), q))
             return res
         q = p.copy()
-        cur = asV(l.get(q))
+        cur = asV(l.get(q)) if l is not None else None
         av = [asV(a) for a in args] + extra
         if mname == "walk":
             # ParseTreeWalker.walk(listener, tree): runs the listener's handlers over the tree (A-antlr-walk): the listener object and the
